@@ -80,13 +80,22 @@ def run_scenario(item):
             fills.append([self_.side, self_.type, lat(self_.price), int((self_.executed_at - S.T0) // S.MIN)])
     rec._wrap(Order, 'execute', pre=pre, post=post)
     start = 10000.0
+    import signal
+    from . import simruns as R
+    old = signal.signal(signal.SIGALRM, R._on_alarm)
+    signal.alarm(R.RUN_TIMEOUT)
     try:
         routes = [{'symbol': 'BTC-USDT', 'timeframe': TFNAME[item['tf']]}]
         data = [{'symbol': 'BTC-USDT', 'timeframe': TFNAME[item['chunk']]}] if item['chunk'] != item['tf'] else []
         out = S.run_backtest(None, S.futures_config(balance=start, fee=0.0, lev=1, mode='cross'), {'BTC-USDT': cand},
                              routes=routes, data_routes=data, fast=(item['mode'] == 'fast'),
                              strategy_cls=scenario_strategy(rows))
+    except R.HarnessTimeout:
+        out = {'exc': 'HarnessTimeout: the backtest did not finish', 'final': None}
+        del fills[2000:]
     finally:
+        signal.alarm(0)
+        signal.signal(signal.SIGALRM, old)
         rec.uninstall()
     exc = out['exc'].split(':')[0] if out['exc'] else 'none'
     bal = 0
@@ -98,10 +107,6 @@ def run_scenario(item):
             raise Machinery("wallet %r not on the lattice" % (w,))
         bal = int(q)
     return {"fills": fills, "bal": bal, "exc": exc, "exc_text": (out['exc'] or '')[:160]}
-
-
-def model_part(ctx):
-    pass
 
 
 # ------------------------------------------------------------------------------------------------ scenarios
@@ -166,3 +171,138 @@ def run_scenarios(scens):
 def scenario_trace(tid, sc, rn, rf):
     side = lambda r: {"fills": r["fills"], "bal": r["bal"], "exc": r["exc"]}
     return {"id": tid, "hdr": {"chunk": sc["chunk"], "tf": sc["tf"]}, "hist": sc["hist"], "norm": side(rn), "fast": side(rf)}
+
+
+# ------------------------------------------------------------------------------------------------ M + R
+def se_cfg(K, chunk, tf, n, spacing, invs, constraint=True, gaps=True, innerfix=False):
+    b = lambda x: "TRUE" if x else "FALSE"
+    return ("SPECIFICATION Spec\nVIEW View\nCHECK_DEADLOCK FALSE\n"
+            "CONSTANTS K = %d Chunk = %d TF = %d NMin = %d Gaps = %s Spacing = %s InnerFix = %s\n"
+            % (K, chunk, tf, n, b(gaps), b(spacing), b(innerfix))
+            + ("CONSTRAINT InPre\n" if constraint else "") + "".join("INVARIANT %s\n" % i for i in invs))
+
+
+def scenarios_from(r, tag, chunk, tf, K):
+    out = []
+    for t in tlc.tagged(r, tag):
+        out.append({"hist": json.loads(t[1]), "chunk": chunk, "tf": tf, "K": K})
+    return out
+
+
+def bind(ctx, scens, label, stats):
+    """run the scenarios on both real simulators and let TLC compare with the model's prediction"""
+    if not scens:
+        return
+    res = run_scenarios(scens)
+    traces = [scenario_trace(j + 1, sc, rn, rf) for j, (sc, (rn, rf)) in enumerate(zip(scens, res))]
+    verdicts, results = tlc.validate_traces("TraceSimModel", "TraceSimModel.cfg", traces, ctx.sub("bind-" + label), parts=16,
+                                            timeout=1500)
+    for r in results:
+        ctx.coverage["binding_states_checked_by_tlc"] = ctx.coverage.get("binding_states_checked_by_tlc", 0) + r.generated
+    for tid, (agree, v) in sorted(verdicts.items()):
+        sc, (rn, rf) = scens[tid - 1], res[tid - 1]
+        stats['scenarios'] += 1
+        stats['real_runs'] += 2
+        stats['fills'] += len(rn['fills'])
+        if agree == 0:
+            stats['model_says_simulators_differ'] += 1
+            if rn['fills'] != rf['fills'] or rn['exc'] != rf['exc']:
+                stats['and_the_code_differs_too'] += 1
+        if v != "ok":
+            stats['mismatch_in' if agree == 1 else 'mismatch_out'].append({"label": label, "verdict": v, "scenario": sc,
+                                                                             "normal": rn, "fast": rf})
+    return res
+
+
+def model_part(ctx):
+    jobs, labels = [], []
+    q = [(3, 2, 2, 6), (3, 3, 3, 6), (4, 2, 2, 4), (3, 2, 4, 8), (3, 1, 3, 6), (4, 1, 1, 3)]
+    t = q + [(4, 2, 2, 6), (5, 2, 2, 4), (4, 2, 4, 8), (4, 1, 3, 6), (5, 1, 1, 4), (3, 3, 3, 9)]
+    for (K, ch, tf, n) in ctx.pick(q, t):
+        jobs.append(dict(module="SimEquiv", cfg_text=se_cfg(K, ch, tf, n, True, ["Equiv", "NoErr"]), workers=4, coverage=True,
+                         timeout=2400))
+        labels.append("SimEquiv K=%d chunk=%d trading=%d minutes=%d quantifier=spacing" % (K, ch, tf, n))
+    res = tlc.run_parallel(jobs, max_procs=4)
+    for r, lab in zip(res, labels):
+        ctx.add_tlc(r, lab)
+        if r.violation:
+            # inside the property's quantifier the model of the unchanged code must be equivalent: a counter-example is a
+            # finding candidate - replayed below before anything is concluded
+            raise Machinery("%s violates %s - replay the counter-example (hist) on the code:\n%s" % (
+                lab, r.violation["name"], r.violation["trace"][-4000:]))
+        for a in ("Feed", "Compare", "DecideStep"):
+            if r.coverage.get(a, (0, 0))[1] == 0:
+                raise Machinery("action %s never taken in %s" % (a, lab))
+    # probes: the antecedent of Equiv is reachable with resting fills, closed trades, market fills and gapped chunks
+    probes = ["ProbeRestingFill", "ProbeClosedTrade", "ProbeMarketFill", "ProbeExitAfterGap"]
+    pres = tlc.run_parallel([dict(module="SimEquiv", cfg_text=se_cfg(3, 2, 2, 6, True, [p]), workers=2, timeout=900)
+                             for p in probes], max_procs=4)
+    for p, r in zip(probes, pres):
+        if not r.violation or r.violation["name"] != p:
+            raise Machinery("non-vacuity probe %s is not reachable: Equiv would be vacuous" % p)
+    ctx.coverage["antecedent_reachable_with"] = probes
+    # R: scenarios generated by TLC, replayed on the real simulators, judged by TLC against the model
+    stats = dict(scenarios=0, real_runs=0, fills=0, model_says_simulators_differ=0, and_the_code_differs_too=0,
+                 mismatch_in=[], mismatch_out=[])
+    exp = [(3, 3, 3, 6), (3, 1, 3, 6)] if ctx.quick else [(3, 3, 3, 6), (3, 1, 3, 6), (4, 1, 3, 6), (4, 1, 1, 4), (3, 3, 3, 9)]
+    eres = tlc.run_parallel([dict(module="SimEquiv", cfg_text=se_cfg(K, ch, tf, n, False, ["Export", "NoErr"], constraint=False),
+                                  workers=4, timeout=2400) for (K, ch, tf, n) in exp], max_procs=4)
+    n_exp = 0
+    for (K, ch, tf, n), r in zip(exp, eres):
+        if r.violation:
+            raise Machinery("export run violated %s" % r.violation["name"])
+        ctx.add_tlc(r, "SimEquiv export K=%d chunk=%d trading=%d minutes=%d (no antecedent)" % (K, ch, tf, n))
+        sc = scenarios_from(r, "SCEN", ch, tf, K)
+        n_exp += len(sc)
+        bind(ctx, sc, "export-%d-%d-%d-%d" % (K, ch, tf, n), stats)
+    # the statement's antecedent alone (<= 1 resting fill per trading candle) is NOT enough: TLC lists every distinct
+    # chunk-end state where the simulators differ; each witness is replayed on the code
+    dres = tlc.run_parallel([
+        dict(module="SimEquiv", cfg_text=se_cfg(3, 3, 3, 6, False, ["Diverge", "NoErr"]), workers=4, timeout=2400),
+        dict(module="SimEquiv", cfg_text=se_cfg(3, 3, 3, 5, True, ["Diverge", "NoErr"]), workers=4, timeout=2400)], max_procs=2)
+    dsc = scenarios_from(dres[0], "DIVERGE", 3, 3, 3)
+    rsc = scenarios_from(dres[1], "DIVERGE", 3, 3, 3)
+    if not dsc:
+        raise Machinery("no divergence without the spacing quantifier: the antecedent would be irrelevant (model too weak)")
+    if not rsc or not all(len(s["hist"][-1]["raw"]) < 3 for s in rsc if s["hist"][-1]["k"] == "feed"):
+        raise Machinery("ragged-length instance: expected divergences only at the short trailing chunk, got %d" % len(rsc))
+    before = stats['and_the_code_differs_too']
+    bind(ctx, dsc, "diverge-fills-only", stats)
+    n_div_conf = stats['and_the_code_differs_too'] - before
+    before = stats['and_the_code_differs_too']
+    bind(ctx, rsc, "diverge-ragged", stats)
+    n_rag_conf = stats['and_the_code_differs_too'] - before
+    # T (model binding): random scenarios, larger lattices and real 5m / 15m timeframes
+    rng = random.Random(ctx.seed + 12)
+    n_rand = ctx.pick(300, 6000)
+    rs = [rand_scenario(rng, ragged=(j % 12 == 0)) for j in range(n_rand)]
+    for off in range(0, n_rand, 1500):
+        bind(ctx, rs[off:off + 1500], "random-%d" % off, stats)
+    ctx.coverage.update({
+        "model_scenarios_replayed_on_code": stats['scenarios'], "model_replay_real_runs": stats['real_runs'],
+        "model_replay_fills": stats['fills'], "tlc_exported_scenarios": n_exp,
+        "model_says_simulators_differ": stats['model_says_simulators_differ'],
+        "of_which_the_code_differs_too": stats['and_the_code_differs_too'],
+        "divergences_with_fill_count_antecedent_only": {"found_by_tlc": len(dsc), "reproduced_on_code": n_div_conf},
+        "divergences_ragged_length": {"found_by_tlc": len(rsc), "reproduced_on_code": n_rag_conf},
+        "model_binding_mismatches_where_model_says_equal": len(stats['mismatch_in']),
+        "model_binding_mismatches_where_model_says_differ": len(stats['mismatch_out']),
+        "divergence_sample": dsc[0]["hist"],
+    })
+    if stats['mismatch_out']:
+        ctx.notes.append("SimCore mispredicts a simulator on %d scenario(s) OUTSIDE the precondition of C12 (first: %s) - the "
+                         "model is out of date there; not a C12 verdict" % (len(stats['mismatch_out']),
+                                                                          json.dumps(stats['mismatch_out'][0])[:600]))
+    if stats['mismatch_in']:
+        raise Machinery("SimCore.tla no longer describes the code: on %d scenario(s) where the model says both simulators agree, "
+                        "TLC rejects what a real simulator did (first: %s). Update the model; C12's verdict on the code is the "
+                        "differential trace check." % (len(stats['mismatch_in']), json.dumps(stats['mismatch_in'][0])[:1500]))
+    ctx.notes.append("outside the quantifier (exits NOT spaced wider than a trading candle moves) the fast simulator differs from "
+                     "the normal one although the normal run has <= 1 resting fill per trading candle: TLC found %d such chunk-end "
+                     "states on lattice 3 / chunk 3; %d reproduced on the real simulators (e.g. entry stop at 2 filled at the open of a "
+                     "gapped inner minute (o=2,l=1,c=2 after close 1): fast also fills the stop-loss at 1, normal does not)" %
+                     (len(dsc), n_div_conf))
+
+
+def replay_scenario(ctx, p):
+    raise Machinery("no model-level replay payloads are produced by C12")
